@@ -7,6 +7,7 @@ import (
 	"time"
 
 	goat "github.com/avos-io/goat"
+	"github.com/avos-io/goat/gen/goatorepo"
 
 	"google.golang.org/grpc"
 	"google.golang.org/grpc/metadata"
@@ -204,6 +205,66 @@ func c15APIUse(r *Run) {
 		<-served
 		r.Eval(fmt.Sprintf("apiuse/dialattach/%d", i), true)
 		r.Count("apiuse.dialattach")
+	}
+	// the demultiplexer: keys are cancelled (Demux.Cancel, from another goroutine — Run blocks) while the
+	// run loop is handing over envelopes of those very keys; readers come and go
+	for i, n := 0, r.Scale(10, 80); i < n; i++ {
+		r.Progress("apiuse.demuxcancel", i)
+		shared := NewScript(0)
+		ctx, cancel := context.WithCancel(context.Background())
+		var cmu sync.Mutex
+		var lcs []goat.RpcReadWriter
+		dm := goat.NewDemux(ctx, shared, func(e *Rpc) string { return e.GetHeader().GetSource() }, func(rw goat.RpcReadWriter) {
+			cmu.Lock()
+			lcs = append(lcs, rw)
+			cmu.Unlock()
+			go func() {
+				for {
+					rctx, rcancel := context.WithTimeout(ctx, 3*time.Millisecond)
+					_, err := rw.Read(rctx)
+					rcancel()
+					if err != nil && ctx.Err() != nil {
+						return
+					}
+					if err != nil && rctx.Err() == nil {
+						return // the key was cancelled
+					}
+				}
+			}()
+		})
+		ran := make(chan struct{})
+		go func() { defer close(ran); dm.Run() }()
+		stop := make(chan struct{})
+		var wg sync.WaitGroup
+		wg.Add(1)
+		go func() { // canceller
+			defer wg.Done()
+			for k := 0; ; k++ {
+				select {
+				case <-stop:
+					return
+				default:
+				}
+				dm.Cancel(fmt.Sprintf("k%d", k%3))
+				time.Sleep(200 * time.Microsecond)
+			}
+		}()
+		for k := 0; k < 300; k++ {
+			select {
+			case shared.In <- &Rpc{Id: uint64(k), Header: &goatorepo.RequestHeader{Source: fmt.Sprintf("k%d", (k/3)%3)}}:
+			case <-time.After(hangTimeout):
+				r.Violate("apiuse.demuxcancel", "history", "the demultiplexer's run loop stopped reading", i, goroutineDump(), nil)
+				k = 300
+			}
+		}
+		close(stop)
+		wg.Wait()
+		dm.Stop()
+		cancel()
+		shared.FailRead(errInjectedRead)
+		within(hangTimeout, func() { <-ran })
+		r.Eval(fmt.Sprintf("apiuse/demuxcancel/%d", i), true)
+		r.Count("apiuse.demuxcancel")
 	}
 	// the connection fails (read side and write side) while streams are sending and receiving and unary
 	// calls are being made: the error paths of the multiplexer run concurrently with its read loop's end
